@@ -72,6 +72,101 @@ theorem FW_snoc : ∀ (l : WL) (c r : E), FW (l.snoc c r) = max (FW l) (max (fra
   | .nil, c, r => by simp [WL.snoc, FW_cons, FW_nil]
   | .cons c0 r0 l, c, r => by simp only [WL.snoc, FW_cons, FW_snoc l c r]; omega
 
+/-! ### redundant parentheses only add frames -/
+
+theorem wf_mono {b : Bool} {a c : Nat} (h : a ≤ c) (b' : Bool) (hb : b = true → b' = true) : wf b a ≤ wf b' c := by
+  cases b <;> cases b' <;> simp [wf] at * <;> omega
+
+mutual
+theorem frames_min_le (extra : E → Bool) : ∀ e : E, framesMin e ≤ framesWith extra e
+  | .lit _ | .null | .ident _ | .kwIdent _ | .wildcard | .unit | .qualWild _ _ => by simp [framesMin, framesWith]
+  | .tuple a b rest => by
+      have h1 := wf_mono (frames_min_le extra a) (b := false) (extra a) (by simp)
+      have h2 := wf_mono (frames_min_le extra b) (b := false) (extra b) (by simp)
+      have h3 := items_min_le extra rest
+      simp only [framesMin, framesWith] at *
+      omega
+  | .un _ x => by
+      have h1 := wf_mono (frames_min_le extra x) (b := (false || decide (topBp x < PREFIX_BP)))
+        (extra x || decide (topBp x < PREFIX_BP)) (by simp; exact Or.inr)
+      simp only [framesMin, framesWith] at *
+      omega
+  | .bin l o r => by
+      have h1 := wf_mono (frames_min_le extra l) (b := (false || decide (topBp l < lbp o)))
+        (extra l || decide (topBp l < lbp o)) (by simp; exact Or.inr)
+      have h2 := wf_mono (frames_min_le extra r) (b := (false || decide (topBp r < rbp o)))
+        (extra r || decide (topBp r < rbp o)) (by simp; exact Or.inr)
+      simp only [framesMin, framesWith] at *
+      omega
+  | .isNull x _ => by
+      have h1 := wf_mono (frames_min_le extra x) (b := (false || openEnd x)) (extra x || openEnd x) (by simp; exact Or.inr)
+      simp only [framesMin, framesWith] at *
+      omega
+  | .qual x _ => by
+      have h1 := wf_mono (frames_min_le extra x) (b := (false || openEnd x)) (extra x || openEnd x) (by simp; exact Or.inr)
+      simp only [framesMin, framesWith] at *
+      omega
+  | .inList x _ items => by
+      have h1 := wf_mono (frames_min_le extra x) (b := (false || openEnd x))
+        (extra x || openEnd x) (by simp; exact Or.inr)
+      have h2 := items_min_le extra items
+      simp only [framesMin, framesWith] at *
+      omega
+  | .between x _ lo hi => by
+      have h1 := wf_mono (frames_min_le extra x) (b := (false || openEnd x))
+        (extra x || openEnd x) (by simp; exact Or.inr)
+      have h2 := wf_mono (frames_min_le extra lo) (b := (false || decide (topBp lo < PREFIX_BP)))
+        (extra lo || decide (topBp lo < PREFIX_BP)) (by simp; exact Or.inr)
+      have h3 := wf_mono (frames_min_le extra hi) (b := (false || decide (topBp hi < PREFIX_BP)))
+        (extra hi || decide (topBp hi < PREFIX_BP)) (by simp; exact Or.inr)
+      simp only [framesMin, framesWith] at *
+      omega
+  | .like x _ p => by
+      have h1 := wf_mono (frames_min_le extra x) (b := (false || openEnd x))
+        (extra x || openEnd x) (by simp; exact Or.inr)
+      have h2 := wf_mono (frames_min_le extra p) (b := (false || decide (topBp p < PREFIX_BP)))
+        (extra p || decide (topBp p < PREFIX_BP)) (by simp; exact Or.inr)
+      simp only [framesMin, framesWith] at *
+      omega
+  | .call _ _ args => by
+      have h := items_min_le extra args
+      simp only [framesMin, framesWith] at *
+      omega
+  | .array items => by
+      have h := items_min_le extra items
+      simp only [framesMin, framesWith] at *
+      omega
+  | .case operand c r rest els => by
+      have h1 := opt_min_le extra operand
+      have h2 := wf_mono (frames_min_le extra c) (b := false) (extra c) (by simp)
+      have h3 := wf_mono (frames_min_le extra r) (b := false) (extra r) (by simp)
+      have h4 := whens_min_le extra rest
+      have h5 := opt_min_le extra els
+      simp only [framesMin, framesWith] at *
+      omega
+theorem items_min_le (extra : E → Bool) : ∀ l : EL, framesItems (fun _ => false) l ≤ framesItems extra l
+  | .nil => by simp [framesItems]
+  | .cons e l => by
+      have h1 := wf_mono (frames_min_le extra e) (b := false) (extra e) (by simp)
+      have h2 := items_min_le extra l
+      simp only [framesMin, framesItems] at *
+      omega
+theorem whens_min_le (extra : E → Bool) : ∀ l : WL, framesWhens (fun _ => false) l ≤ framesWhens extra l
+  | .nil => by simp [framesWhens]
+  | .cons c r l => by
+      have h1 := wf_mono (frames_min_le extra c) (b := false) (extra c) (by simp)
+      have h2 := wf_mono (frames_min_le extra r) (b := false) (extra r) (by simp)
+      have h3 := whens_min_le extra l
+      simp only [framesMin, framesWhens] at *
+      omega
+theorem opt_min_le (extra : E → Bool) : ∀ o : OE, framesOpt (fun _ => false) o ≤ framesOpt extra o
+  | .none => by simp [framesOpt]
+  | .some e => by
+      have h1 := wf_mono (frames_min_le extra e) (b := false) (extra e) (by simp)
+      simp only [framesMin, framesOpt] at *
+      omega
+end
+
 /-! ### the invariant -/
 
 /-- the `min_bp` with which the frame called from site `k` runs -/
